@@ -18,6 +18,7 @@ fn num(name: &str) -> Option<f64> {
     Some(match name {
         "zero" | "fzero" | "r0" | "c0" => 0.,
         "warm" => 1e-3,
+        "tinyk" => 1e-17,
         "hot" => 0.5,
         "d01" => 0.1,
         "d0001" => 1e-3,
